@@ -702,6 +702,9 @@ class Interp:
             a = t.next()
             i = s.stander_pat_or_discarder_index
             hole = list(s.hole_cards[i])
+            if self.cfg.get('discard_heavy') and a % 4:
+                # a table of big drawers: the deck runs out during the draws
+                a |= 0b11111 if a % 4 > 1 else 0b10111
             if a == 0:
                 return ()
             chosen = tuple(
